@@ -101,6 +101,11 @@ pub struct Evaluator<'a> {
 }
 
 thread_local! {
+    /// names of the crate's structs: a struct pattern over an unmodelled value is irrefutable
+    pub static STRUCT_NAMES: std::cell::RefCell<std::collections::BTreeSet<String>> = std::cell::RefCell::new(std::collections::BTreeSet::new());
+}
+
+thread_local! {
     /// constants that input-derived integers were compared with (for region refinement)
     pub static CMP_LOG: std::cell::RefCell<std::collections::BTreeSet<i128>> = std::cell::RefCell::new(std::collections::BTreeSet::new());
 }
@@ -362,6 +367,22 @@ impl<'a> Evaluator<'a> {
                     for (fname, fp) in fs {
                         let sub = named.get(fname).cloned().unwrap_or(Val::Any);
                         r = and(r, self.pat_match(fp, &sub, env));
+                    }
+                }
+                r
+            }
+            Val::Any | Val::Opaque(_) if STRUCT_NAMES.with(|n| n.borrow().contains(name)) => {
+                // a struct (not an enum variant): the pattern can only fail in its sub-patterns
+                let mut r = PatM::Yes;
+                for e in elems {
+                    if matches!(e, syn::Pat::Rest(_)) {
+                        break;
+                    }
+                    r = and(r, self.pat_match(e, &Val::Opaque("field".into()), env));
+                }
+                if let Some(fs) = fields {
+                    for (_, fp) in fs {
+                        r = and(r, self.pat_match(fp, &Val::Opaque("field".into()), env));
                     }
                 }
                 r
@@ -877,6 +898,13 @@ impl<'a> Evaluator<'a> {
                         let d: Vec<Val> = l.drain(..).collect();
                         Ok(Val::List(d))
                     }
+                    (Val::Str(st), "push") => match args.get(0) {
+                        Some(Val::Char(c)) => {
+                            st.push(*c);
+                            Ok(Val::Unit)
+                        }
+                        _ => Err("push on a string: bad arguments".into()),
+                    },
                     (Val::Str(st), "push_str") => match args.get(0) {
                         Some(Val::Str(o)) => {
                             st.push_str(o);
